@@ -22,14 +22,15 @@ ExtractFailed(O, s, c) ==
     THEN {} ELSE {"extracts_to_the_orf"}
 CallFailed(O, s, c) ==
     IF c.r.exc # "" THEN {"no_exception:" \o c.r.exc}
-    ELSE ScanFailedWith(O, s, c.d, c.off, c.min, c.rl, c.r.v) \cup ExtractFailed(O, s, c)
+    ELSE LET f == ScanFailedWith(O, s, c.d, c.off, c.min, c.rl, c.r.v)
+         IN  IF f # {} THEN f ELSE ExtractFailed(O, s, c)      (* one clause per call: the first that fails *)
 ScanEventFailed(ev) ==
     LET O == OrfsOf(ev.s) IN
     UNION {{"scan/" \o x \o ":" \o ToString(i) : x \in CallFailed(O, ev.s, ev.calls[i])} : i \in DOMAIN ev.calls}
 
 AllEventFailed(ev) ==
     IF ev.res.exc # "" THEN {"all/no_exception:" \o ev.res.exc}
-    ELSE Tag("all", ExtraFailed(ev.rec, AsSet(ev.genes), ev.area, ev.min, ev.ovl, ev.res.v))
+    ELSE Tag("all", ExtraFailed(ev.rec, ev.circ, AsSet(ev.genes), ev.area, ev.min, ev.ovl, ev.res.v))
 
 GapsEventFailed(ev) ==
     IF ev.res.exc # "" THEN {"gaps/no_exception:" \o ev.res.exc}
